@@ -77,6 +77,94 @@ mutant("c03_ind_ratio_uses_total_attachment", "C03", "samplers/gibbs.py",
        "            return state.get_tensor_values(\n                (\"nll_attach_ind\", f\"nll_regul_{self.name}_ind\")\n            )",
        "            a, r = state.get_tensor_values(\n                (\"nll_attach_ind\", f\"nll_regul_{self.name}_ind\")\n            )\n            return a.sum() + 0 * a, r")
 
+# ----------------------------------------------------------------------------- C04
+mutant("c04_std_uses_current_mean", "C04", "variables/utilities.py",
+       "    individual_parameter_current_mean = torch.mean(individual_parameter_values, dim=dim)",
+       "    individual_parameter_current_mean = torch.mean(individual_parameter_values, dim=dim)\n    individual_parameter_old_mean = individual_parameter_current_mean")
+mutant("c04_biased_std_in_burn_in", "C04", "variables/specs.py",
+       "            update_rule_burn_in=Std(ind_var_name, dim=LVL_IND),",
+       "            update_rule_burn_in=Std(ind_var_name, dim=LVL_IND, unbiased=False),")
+mutant("c04_diag_noise_all_entries", "C04", "models/obs_models/_gaussian.py",
+       "        summed = sum_dim(-2 * y_x_model + model_x_model, but_dim=LVL_FT)",
+       "        summed = sum_dim(-2 * y_x_model, but_dim=LVL_FT) + sum_dim(model_x_model, but_dim=LVL_FT)")
+mutant("c04_sequential_update", "C04", "models/mcmc_saem_compatible.py",
+       "            params_updates[mp_name] = mp_var.compute_update(\n                state=state, suff_stats=sufficient_statistics, burn_in=burn_in\n            )",
+       "            params_updates[mp_name] = mp_var.compute_update(\n                state=state, suff_stats=sufficient_statistics, burn_in=burn_in\n            )\n            state[mp_name] = params_updates[mp_name]")
+mutant("c04_scalar_noise_unobserved_entries", "C04", "models/obs_models/_gaussian.py",
+       "        summed = sum_dim(-2 * y_x_model + model_x_model)\n        noise_var = (y_l2 + summed) / n_obs.float()",
+       "        noise_var = (y_l2 - 2 * sum_dim(y_x_model) + sum_dim(model_x_model)) / n_obs.float()")
+# ----------------------------------------------------------------------------- C05
+mutant("c05_burn_in_strict", "C05", "algo/algo_with_samplers.py",
+       "        return self.current_iteration <= self.algo_parameters[\"n_burn_in_iter\"]",
+       "        return self.current_iteration < self.algo_parameters[\"n_burn_in_iter\"]")
+mutant("c05_step_plus_one", "C05", "algo/fit/mcmc_saem.py",
+       "                self.current_iteration - self.algo_parameters[\"n_burn_in_iter\"]\n            )  # min = 2",
+       "                self.current_iteration - self.algo_parameters[\"n_burn_in_iter\"] + 1\n            )  # min = 2")
+mutant("c05_positive_exponent", "C05", "algo/fit/mcmc_saem.py",
+       "            burn_in_step **= -self.algo_parameters[\"burn_in_step_power\"]",
+       "            burn_in_step **= self.algo_parameters[\"burn_in_step_power\"] - 2 * self.algo_parameters[\"burn_in_step_power\"] * (self.current_iteration % 2)")
+mutant("c05_round_not_truncate", "C05", "algo/algo_with_samplers.py",
+       "            self.algo_parameters[\"n_burn_in_iter\"] = int(\n                n_burn_in_iter_frac * self.algo_parameters[\"n_iter\"]\n            )",
+       "            self.algo_parameters[\"n_burn_in_iter\"] = int(round(\n                n_burn_in_iter_frac * self.algo_parameters[\"n_iter\"]\n            ))")
+mutant("c05_power_half_accepted", "C05", "algo/fit/mcmc_saem.py",
+       "        if not (0.5 < self.algo_parameters[\"burn_in_step_power\"] <= 1):",
+       "        if not (0.5 <= self.algo_parameters[\"burn_in_step_power\"] <= 1):")
+# (blending at the first memory iteration is equivalent: e_1 = 1)
+# ----------------------------------------------------------------------------- C08
+mutant("c08_normal_constant_dropped", "C08", "variables/distributions.py",
+       "                0.5 * ((x.value - loc) / scale) ** 2\n                + torch.log(scale)\n                + cls.nll_constant_standard",
+       "                0.5 * ((x.value - loc) / scale) ** 2\n                + torch.log(scale)")
+mutant("c08_log_scale_dropped", "C08", "variables/distributions.py",
+       "                0.5 * ((x.value - loc) / scale) ** 2\n                + torch.log(scale)\n                + cls.nll_constant_standard",
+       "                0.5 * ((x.value - loc) / scale) ** 2\n                + cls.nll_constant_standard")
+mutant("c08_censoring_inverted", "C08", "variables/distributions.py",
+       "        log_hazard = torch.where(event_bool != 0, log_hazard, 0.0)",
+       "        log_hazard = torch.where(event_bool == 0, log_hazard, 0.0)")
+mutant("c08_penalty_infinite", "C08", "variables/distributions.py",
+       "            -constants.INFINITY,\n        )\n        log_hazard",
+       "            -float(\"inf\"),\n        )\n        log_hazard")
+mutant("c08_survival_without_clamp", "C08", "variables/distributions.py",
+       "        return -(\n            (torch.clamp(event_reparametrized_time, min=0.0) / nu_reparametrized) ** rho\n        )",
+       "        return -(\n            (event_reparametrized_time / nu_reparametrized) ** rho\n        )")
+# ----------------------------------------------------------------------------- C10
+mutant("c10_velocity_not_compensated", "C10", "models/riemanian_manifold.py",
+       "        state[\"log_v0\"] = state[\"log_v0\"] + mean_xi", "        pass")
+mutant("c10_joint_nu_not_compensated", "C10", "models/joint.py",
+       "        state[\"n_log_nu\"] = state[\"n_log_nu\"] + mean_xi", "        pass")
+mutant("c10_euclidean_basis", "C10", "utils/linalg.py",
+       "        dgamma_t0 = G_metric * dgamma_t0", "        dgamma_t0 = dgamma_t0")
+mutant("c10_center_with_median", "C10", "models/riemanian_manifold.py",
+       "        mean_xi = torch.mean(state[\"xi\"])\n        state[\"xi\"] = state[\"xi\"] - mean_xi\n        state[\"log_v0\"]",
+       "        mean_xi = torch.median(state[\"xi\"])\n        state[\"xi\"] = state[\"xi\"] - mean_xi\n        state[\"log_v0\"]")
+# ----------------------------------------------------------------------------- C19
+mutant("c19_period_wrong_divisor", "C19", "algo/algo_with_annealing.py",
+       "        self._annealing_period = self.algo_parameters[\"annealing\"][\"n_iter\"] // (\n            self.algo_parameters[\"annealing\"][\"n_plateau\"] - 1\n        )",
+       "        self._annealing_period = max(1, self.algo_parameters[\"annealing\"][\"n_iter\"] // (\n            self.algo_parameters[\"annealing\"][\"n_plateau\"] + 1\n        ))")
+mutant("c19_no_snap_to_one", "C19", "algo/algo_with_annealing.py",
+       "                    if self.temperature < 1 + self._annealing_temperature_decrement / 2:",
+       "                    if self.temperature < 1:")
+mutant("c19_plateau_boundary_shifted", "C19", "algo/algo_with_annealing.py",
+       "            if self.current_iteration % self._annealing_period == 0:",
+       "            if self.current_iteration % self._annealing_period == (1 if self._annealing_period > 1 else 0):")
+mutant("c19_decrement_doubled_first", "C19", "algo/algo_with_annealing.py",
+       "                    self.temperature -= self._annealing_temperature_decrement\n",
+       "                    self.temperature -= self._annealing_temperature_decrement * (2 if self.current_iteration == self._annealing_period else 1)\n")
+mutant("c19_adapt_every_call", "C19", "samplers/gibbs.py",
+       "        if self._counter % self.acceptation_history_length == 0:",
+       "        if self._counter % max(1, self.acceptation_history_length - 1) == 0:")
+mutant("c19_factor_all_blocks", "C19", "samplers/gibbs.py",
+       "            self.std[idx_toolow] *= 1 - self._adaptive_std_factor",
+       "            self.std[idx_toolow | (idx_toolow.any() & ~idx_toohigh)] *= 1 - self._adaptive_std_factor")
+mutant("c19_window_not_rolling", "C19", "samplers/base.py",
+       "        old_acceptation_history = self.acceptation_history[1:]",
+       "        old_acceptation_history = self.acceptation_history[:-1]")
+mutant("c19_band_inverted", "C19", "samplers/gibbs.py",
+       "            self.std[idx_toolow] *= 1 - self._adaptive_std_factor\n            self.std[idx_toohigh] *= 1 + self._adaptive_std_factor",
+       "            self.std[idx_toolow] *= 1 + self._adaptive_std_factor\n            self.std[idx_toohigh] *= 1 - self._adaptive_std_factor")
+mutant("c19_low_bound_inclusive", "C19", "samplers/gibbs.py",
+       "                mean_acceptation < self._mean_acceptation_lower_bound_before_adaptation",
+       "                mean_acceptation <= self._mean_acceptation_lower_bound_before_adaptation + 0.15")
+
 
 def apply_mutant(m, dst_src: Path) -> bool:
     f = dst_src / "leaspy" / m["file"]
